@@ -43,6 +43,12 @@ class chunks(object):
             decMax = 90.0
         self.decBounds = decMin + ((decMax - decMin) * np.arange(self.nDec + 1, dtype='d'))/float(self.nDec)
         #
+        # Rounding in the line above must not move the end points
+        # (in particular not beyond +/-90 degrees).
+        #
+        self.decBounds[0] = decMin
+        self.decBounds[self.nDec] = decMax
+        #
         # Find ra offset which minimizes the range in ra (this should take care
         # of the case that ra crosses zero in some parts
         #
